@@ -226,6 +226,31 @@ def check_twin(ld, prog, seed, rngkind, res):
         if outs != a:
             res.violation('twin-differs', {**case, 'probed_between_epochs': True},
                           {'a': a, 'probed_twin': outs}, sig={**sig, 'probed': True})
+    # an iterator that is asked for but never advanced (iter(ds) dropped,
+    # zip([], ds), islice(ds, 0)) is not an epoch either: no order is drawn
+    # before the first example is requested
+    for variant in ('plain', 'prefetch-pool', 'prefetch-1'):
+        try:
+            un = build(ld, prog, seed, rngkind)
+            if variant == 'prefetch-pool':
+                un = un.prefetch(2, 2, 't')
+            elif variant == 'prefetch-1':
+                un = un.prefetch(1, 2)
+            it0 = iter(un)
+            del it0
+            for _ in zip([], un):
+                pass
+            list(itertools.islice(un, 0))
+            got_un = epochs(un, 3, [95, 96, 97])
+        except BaseException:
+            res.count('unstarted_iterator_variant_not_offered')
+            continue
+        res.count('unstarted_iterator_comparisons')
+        if got_un != a:
+            res.violation('twin-differs', {**case, 'unstarted_iterators_before': variant},
+                          {'a': a, 'after_unstarted_iterators': got_un},
+                          sig={**sig, 'unstarted': True, 'variant': variant})
+            break
     # a snapshot (new(ds) tries key iteration first and falls back) is the
     # first epoch of a fresh build
     if pre == 'list' and stage in ('reshuffle', 'once', 'local2', 'local4') \
